@@ -1,4 +1,5 @@
 from vg.compat import v2 as vg
+from .._common.shape import check_shape_any
 from ._composite_transform import CompositeTransform
 
 
@@ -79,6 +80,8 @@ class CoordinateManager:
             raise KeyError("No such tag: {}".format(tag))
 
         if from_index == to_index:
+            # No transform is applied, so nothing else validates the points.
+            check_shape_any(points, (3,), (-1, 3), name="points")
             return points
         elif from_index < to_index:
             from_range = from_index, to_index
